@@ -85,6 +85,10 @@ func ruleErr1(c *Ctx) {
 				c.Ok(key, c.Pos(in), "receiver shown non-nil by a dominating test of the same value/cell")
 				continue
 			}
+			if par, isPar := x.(*ssa.Parameter); isPar && paramNonNilAtEveryCall(c.P, fn, par) {
+				c.Ok(key, c.Pos(in), "receiver is a parameter that every call site passes under a non-nil test of the argument")
+				continue
+			}
 			c.Bad(key, c.Pos(in), fmt.Sprintf("this code runs when %s is non-nil, but Error() is called on %s, for which no non-nil evidence exists on this path (it is still nil when the guarded error is the only failure): nil dereference → internal Fatal Error", valueLabel(otherErr), valueLabel(x)))
 		}
 	}
@@ -156,4 +160,32 @@ func isErrorVariable(x ssa.Value) bool {
 		}
 	}
 	return false
+}
+
+// paramNonNilAtEveryCall: fn has callers, all of them static calls, and each passes for par an argument that is
+// known to be non-nil at the call (dominating test, non-nil producer).
+func paramNonNilAtEveryCall(p *core.Prog, fn *ssa.Function, par *ssa.Parameter) bool {
+	idx := -1
+	for i, q := range fn.Params {
+		if q == par {
+			idx = i
+		}
+	}
+	if idx < 0 {
+		return false
+	}
+	callers := p.Callers(fn)
+	if len(callers) == 0 {
+		return false
+	}
+	for _, e := range callers {
+		if e.Site == nil || e.Site.Common().StaticCallee() != fn || idx >= len(e.Site.Common().Args) {
+			return false
+		}
+		arg := e.Site.Common().Args[idx]
+		if core.ClassifyNil(arg, e.Site) != core.NonNil {
+			return false
+		}
+	}
+	return true
 }
